@@ -161,6 +161,14 @@ CLAIMED["C18"] = (
     "generator bodies), the received bytes cut into responses by http.client.HTTPResponse and compared with the model (spec->code)",
     "Exhaustive model checking of the framing rules for all request/application sequences in the bounds plus conformance of the "
     "real server on every enumerated behaviour, judged through an independent HTTP parser.", "3 C18", "")
+CLAIMED["C19"] = (
+    "TLA+ spec specs/http/ClientQueue.tla (request queue, in-flight request, redirect hops, current server, wire log, response "
+    "queue; server scripts ok / delayed / redirect relative, absolute, two hops, other server, https->http / close before or "
+    "during the answer): TLC exhaustive MC of OneAtATime/FifoOneToOne/WireInQueueOrder/RedirectTransparent/NoDowngrade/"
+    "EveryRequestAnswered; every queue executed on a real http.Client over scripted sockets against a scripted peer, response queue "
+    "and wire sequence compared (spec->code)",
+    "Exhaustive model checking of the queue discipline for every script queue in the bounds, plain and secure, plus conformance of "
+    "the real client on every one of them.", "3 C19", "")
 NA = {
  "C28": "pure value-fidelity of json/cbor2/msgpack + dataclass reflection: no state/transition structure for a TLA+ model to decide (DESIGN.md section 4)",
 }
